@@ -302,13 +302,13 @@ pub fn run_access<W: WorldSpec>(w: &W, m: &Model, stats: &mut Stats, held: &mut 
     let takes_borrow = match acc.kind {
         AccKind::FindBorrow | AccKind::BorrowComp | AccKind::IterBorrow => ent.is_some(),
         AccKind::BorrowSlice => true,
-        AccKind::CloneWorld | AccKind::CloneArch => true,
+        AccKind::CloneWorld | AccKind::CloneArch | AccKind::CloneFromWorld | AccKind::CloneFromArch => true,
         AccKind::DoubleFind | AccKind::DoubleIter => false,
     };
     let predicted = match acc.kind {
-        AccKind::CloneWorld => held.iter().any(|(_, _, hm)| *hm),
+        AccKind::CloneWorld | AccKind::CloneFromWorld => held.iter().any(|(_, _, hm)| *hm),
         // Archetype::clone borrows every column of that archetype only
-        AccKind::CloneArch => held.iter().any(|(ha, _, hm)| *ha == a && *hm),
+        AccKind::CloneArch | AccKind::CloneFromArch => held.iter().any(|(ha, _, hm)| *ha == a && *hm),
         _ => takes_borrow && conflicts(held, a, col, mutable),
     };
     let mut ran_inner = false;
@@ -374,6 +374,19 @@ pub fn run_access<W: WorldSpec>(w: &W, m: &Model, stats: &mut Stats, held: &mut 
             AccKind::CloneArch => {
                 drv.clone_and_drop(w);
                 *ran = true;
+            }
+            // the borrowed world is the SOURCE of a clone_from into a scratch world
+            AccKind::CloneFromWorld => {
+                let mut c = W::fresh_default();
+                c.clone_from(w);
+                *ran = true;
+                drop(c);
+            }
+            AccKind::CloneFromArch => {
+                let mut c = W::fresh_default();
+                drv.clone_from_other(&mut c, w);
+                *ran = true;
+                drop(c);
             }
             AccKind::DoubleFind | AccKind::DoubleIter => {}
         })
